@@ -1,1 +1,105 @@
-fn main(){}
+//! dsim - deterministic simulation with fault injection for duckscript.
+#![allow(dead_code)]
+mod driver;
+mod entropy;
+mod prop;
+mod props;
+mod rng;
+mod sim;
+mod worker;
+
+use std::path::PathBuf;
+
+fn usage() -> i32 {
+    eprintln!("usage: dsim check <Cxx> --tier quick|thorough [--seed N] [--runs N] [--from N] [--workers N] [--duck PATH]");
+    eprintln!("       dsim replay <file> [--duck PATH]");
+    eprintln!("       dsim worker <Cxx> --id N --jail DIR [--duck PATH] [--avoid a,b]   (internal)");
+    eprintln!("       dsim list");
+    2
+}
+
+fn arg_value(args: &[String], name: &str) -> Option<String> {
+    args.iter().position(|a| a == name).and_then(|i| args.get(i + 1)).cloned()
+}
+
+fn real_main() -> i32 {
+    let args: Vec<String> = std::env::args().collect();
+    if args.len() < 2 {
+        return usage();
+    }
+    match args[1].as_str() {
+        "list" => {
+            for p in props::all() {
+                println!("{}", p.id());
+            }
+            0
+        }
+        "worker" => {
+            let prop = match args.get(2).and_then(|id| props::by_id(id)) {
+                Some(p) => p,
+                None => return usage(),
+            };
+            let id = arg_value(&args, "--id").and_then(|v| v.parse().ok()).unwrap_or(0);
+            let jail = arg_value(&args, "--jail").map(PathBuf::from);
+            let duck = arg_value(&args, "--duck").map(PathBuf::from);
+            let avoid = arg_value(&args, "--avoid").map(|s| s.split(',').map(|x| x.to_string()).collect()).unwrap_or_default();
+            worker::worker_main(prop, id, jail, duck, avoid)
+        }
+        "check" => {
+            let prop = match args.get(2).and_then(|id| props::by_id(id)) {
+                Some(p) => p,
+                None => {
+                    eprintln!("unknown property");
+                    return 2;
+                }
+            };
+            let tier = arg_value(&args, "--tier").or_else(|| std::env::var("VERIF_TIER").ok()).unwrap_or_else(|| "quick".to_string());
+            if tier != "quick" && tier != "thorough" {
+                return usage();
+            }
+            let seed = arg_value(&args, "--seed")
+                .or_else(|| std::env::var("VERIF_SEED").ok())
+                .and_then(|v| v.trim().parse::<u64>().ok())
+                .unwrap_or(1);
+            let workers = arg_value(&args, "--workers")
+                .and_then(|v| v.parse().ok())
+                .unwrap_or_else(|| std::thread::available_parallelism().map(|n| n.get()).unwrap_or(4).min(16));
+            let opts = driver::CheckOpts {
+                tier,
+                seed,
+                runs: arg_value(&args, "--runs").and_then(|v| v.parse().ok()),
+                workers,
+                duck: arg_value(&args, "--duck").map(PathBuf::from),
+                from: arg_value(&args, "--from").and_then(|v| v.parse().ok()).unwrap_or(0),
+            };
+            println!("dsim: property={} tier={} VERIF_SEED={} workers={}", prop.id(), opts.tier, opts.seed, opts.workers);
+            driver::check(prop, opts)
+        }
+        "replay" => {
+            let path = match args.get(2) {
+                Some(p) => p.clone(),
+                None => return usage(),
+            };
+            let file: serde_json::Value = match std::fs::read_to_string(&path).ok().and_then(|t| serde_json::from_str(&t).ok()) {
+                Some(v) => v,
+                None => {
+                    eprintln!("cannot read {}", path);
+                    return 2;
+                }
+            };
+            let prop = match file["property"].as_str().and_then(props::by_id) {
+                Some(p) => p,
+                None => {
+                    eprintln!("replay file names no known property");
+                    return 2;
+                }
+            };
+            driver::replay(prop, &path, arg_value(&args, "--duck").map(PathBuf::from))
+        }
+        _ => usage(),
+    }
+}
+
+fn main() {
+    std::process::exit(real_main());
+}
